@@ -131,6 +131,10 @@ def gen_history(rnd, regs, settings, nblocks=None):
                 settings["g90e"] = not settings.get("g90e")
             elif q < 0.75:
                 settings["logmode"] = rnd.choice(["octoprint", "dedicated", "both"])
+            elif q < 0.85:
+                # same commands and patterns, actions swapped
+                settings["at"] = [[c, p, ("enable_exclusion" if a == "disable_exclusion" else "disable_exclusion")]
+                                  for c, p, a in settings["at"]]
             steps.append(["settings", dict(settings)])
     return steps
 
